@@ -108,6 +108,25 @@ class Obj:
         return id(self)
 
 
+class ListObj(list):
+    """An instance of a repository class that derives from list: a real list with attributes."""
+    def __init__(self, cls=None, label='list'):
+        list.__init__(self)
+        self.cls, self.label, self.attrs = cls, label, {}
+
+    def __repr__(self):
+        return 'ListObj(%s%s)' % (self.label, list.__repr__(self))
+
+    def __eq__(self, other):
+        return self is other
+
+    def __ne__(self, other):
+        return self is not other
+
+    def __hash__(self):
+        return id(self)
+
+
 class TextObj(str):
     """A text node: a real string (plasTeX text nodes are str subclasses) with mutable attributes; identity matters."""
     def __new__(cls, text, **attrs):
@@ -276,6 +295,7 @@ class Interp:
     def __init__(self, model=None, scope=None, hooks=None, max_iter=1,
                  max_states=40000, exc_edges=True, record_conds=False, inline=0, precise_exc=False, heap=False, generators=False):
         self.max_unroll = 70
+        self.run_init = False           # heap mode: interpret __init__ of instantiated repository classes
         self.generators = generators    # interpret calls of generator helpers eagerly (their value is an iterator over the yields)
         self.heap = heap                # instantiating a repository class gives a mutable Obj instead of an Inst
         self.precise_exc = precise_exc  # exceptions only where one can occur: failed lookups on known containers, unknown calls
@@ -540,7 +560,7 @@ class Interp:
                 self._force_callee = None
                 s.env.pop(key, None)
                 return
-            if isinstance(base, (Obj, TextObj)):
+            if isinstance(base, (Obj, TextObj, ListObj)):
                 base.attrs[t.attr] = v
             else:
                 s.env[txt] = v
@@ -817,8 +837,8 @@ class Interp:
                 pre = st.fork() if n.handlers else None
                 c0 = self._maythrow
                 r = self.block([st_node], [st])
-                if pre is not None and self._maythrow > c0:
-                    pending.append((pre, None))       # an unknown call / lookup may raise anything
+                if pre is not None and self._maythrow > c0 and any(lst for kind, lst in r.items() if kind != 'raise'):
+                    pending.append((pre, None))       # an unknown call / lookup may raise anything (not when the statement definitely raised)
                 for kind, lst in r.items():
                     if kind == 'fall':
                         nxt.extend(x[0] for x in lst)
@@ -1490,7 +1510,12 @@ class Interp:
         return TOP if M.is_unknown(v) else v
 
     def _class_level_object(self, cls, attr):
-        """A class attribute bound to a library object built from constants (a compiled pattern)."""
+        """A class attribute bound to a nested class, or to a library object built from constants (a compiled pattern)."""
+        for k in self.model.mro(cls):
+            if isinstance(k, M.ClassInfo) and attr in k.nested:
+                return k.nested[attr]
+            if isinstance(k, M.ClassInfo) and (attr in k.assigns or attr in k.methods):
+                break
         owner = self.model.find_attr_class(cls, attr)
         if owner is not None and attr in owner.assigns:
             rhs = owner.assigns[attr][-1]
@@ -1520,7 +1545,7 @@ class Interp:
             return TOP if M.is_unknown(v) else v
         if isinstance(base, TokStr) and attr in base._attrs:
             return base._attrs[attr]
-        if isinstance(base, TextObj) and attr in base.attrs:
+        if isinstance(base, (TextObj, ListObj)) and attr in base.attrs:
             return base.attrs[attr]
         if isinstance(base, Obj):
             if attr in base.attrs:
@@ -1528,7 +1553,10 @@ class Interp:
             if isinstance(base.cls, M.ClassInfo) and m is not None:
                 v = m.class_const(base.cls, attr)
                 if M.is_unknown(v):
-                    return self._class_level_object(base.cls, attr)
+                    v = self._class_level_object(base.cls, attr)
+                    if v is TOP and base.attrs.get('__closed') and self.precise_exc and m.find_attr_class(base.cls, attr) is None:
+                        s.env['__exc'] = 'AttributeError'     # an object built by its own __init__: it has no such attribute
+                    return v
                 return v
             return TOP
         if isinstance(base, Sym):
@@ -2026,7 +2054,34 @@ class Interp:
         # model classes -> instances
         if isinstance(fval, M.ClassInfo):
             if self.heap:
-                return Obj('%s@%d' % (fval.name, n.lineno), {'__args': tuple(args)}, cls=fval)
+                is_list = any(isinstance(k, M.External) and k.name in ('list', 'builtins.list') for k in self.model.mro(fval)) if self.model is not None else False
+                o = ListObj(fval, '%s@%d' % (fval.name, n.lineno)) if is_list else Obj('%s@%d' % (fval.name, n.lineno), {'__args': tuple(args)}, cls=fval)
+                init = self.model.find_method(fval, '__init__') if self.model is not None else None
+                if init is not None and self.run_init and self.inline_depth > 0 and len(self._inline_stack) < self.inline_depth:
+                    key = '__obj@%d' % len(self._inline_stack)
+                    s.env[key] = o
+                    call = ast.Call(func=ast.Attribute(value=ast.Name(id=key, ctx=ast.Load()), attr='__init__', ctx=ast.Load()),
+                                    args=list(n.args), keywords=list(n.keywords))
+                    for x in (call, call.func, call.func.value):
+                        ast.copy_location(x, n)
+                    self._force_callee = init
+                    try:
+                        res = self.inline(call, s.fork())
+                    except AnalysisError:
+                        res = None
+                    if res is not None and len(res) == 1:
+                        self._force_callee = init
+                        res = self.inline(call, s)
+                        st = res[0][0]
+                        s.env, s.trace, s.assumed, s.flags = st.env, st.trace, st.assumed, st.flags
+                        o = s.env.get(key, o)
+                        if isinstance(o, Obj):
+                            o.attrs['__closed'] = True
+                    else:
+                        self.imprecise.append('%s.__init__ could not be interpreted (line %s)' % (fval.name, n.lineno))
+                    self._force_callee = None
+                    s.env.pop(key, None)
+                return o
             return Inst(fval, args)
         if isinstance(fval, tuple) and len(fval) == 3 and fval[0] == 'boundmethod':
             _, recv, meth = fval
